@@ -1,6 +1,9 @@
 """Runs mouette's SingularityCutter on /repo's working tree and reports canonical observations.
 
-stdin : {"cases": [ {"nv","faces","coords","singus","feat"}, ... ]}
+stdin : {"cases": [ {"nv","faces","coords","singus","feat","form","late"}, ... ]}
+        "form": container in which the singular vertices are handed to the constructor (list, tuple, set, frozenset,
+        array, dict, attribute, generator, iter, filter, range-free map object); "late": k = the last k singular
+        vertices are appended to the caller's list between the construction of the cutter and run() (form list only)
 stdout: '@@JSON ' + {"results": [obs, ...]}
 
 obs = {"ok": bool, "error": str|None,
@@ -33,6 +36,38 @@ def _ints(xs):
     return [int(x) for x in xs]
 
 
+def give(form, singus, mesh):
+    """the singular vertices in one of the container forms the constructor accepts"""
+    import numpy as np
+    l = list(singus)
+    if form == "list":
+        return l
+    if form == "tuple":
+        return tuple(l)
+    if form == "set":
+        return set(l)
+    if form == "frozenset":
+        return frozenset(l)
+    if form == "array":
+        return np.array(l, dtype=int)
+    if form == "dict":
+        return dict.fromkeys(l, 1.)
+    if form == "attribute":
+        attr = mesh.vertices.create_attribute("c16_singularities", int)
+        for v in l:
+            attr[v] = 1
+        return attr
+    if form == "generator":
+        return (v for v in l)
+    if form == "iter":
+        return iter(l)
+    if form == "filter":
+        return filter(lambda v: True, l)
+    if form == "map":
+        return map(int, l)
+    raise ValueError("unknown container form " + form)
+
+
 def run_case(case):
     import numpy as np
     import mouette as M
@@ -62,7 +97,13 @@ def run_case(case):
             obs["feature_edges"] = sorted(fe)
         else:
             obs["feature_edges"] = None
-        cutter = SingularityCutter(mesh, list(case["singus"]), features=feat, verbose=False)
+        form = case.get("form") or "list"
+        late = int(case.get("late") or 0) if form == "list" else 0
+        allsing = list(case["singus"])
+        given = give(form, allsing[:len(allsing) - late], mesh)
+        cutter = SingularityCutter(mesh, given, features=feat, verbose=False)
+        if late:
+            given.extend(allsing[len(allsing) - late:])   # the caller completes its list before run()
         rec = {}
 
         def wrap(name, after):
